@@ -325,3 +325,185 @@ Proof.
     rewrite <- Hqe at 3. unfold conv_eval. symmetry. apply conv_shared_tree; assumption.
   - intros b i Hb Hb'. apply Ho; [exact Hb|left; exact Hb'].
 Qed.
+
+(* ---------- OR pooling *)
+Lemma existsb_filter_map : forall (A B : Type) (g : A -> B) (p f : B -> bool) l,
+  existsb (fun t => if p (g t) then f (g t) else false) l = existsb f (filter p (map g l)).
+Proof.
+  intros A B g p f l. induction l as [|a r IH]; [reflexivity|]. cbn [existsb map filter].
+  destruct (p (g a)); cbn [existsb]; rewrite IH; reflexivity.
+Qed.
+
+Lemma or_chain : forall sz dst di (cellf : list nat -> gexp) (val : list nat -> bool) rest (m : memB) acc,
+  dst <> 0 -> di < size_of sz dst -> m dst di = Some acc ->
+  (forall q m1, In q rest -> (forall b i, (b <> dst \/ i <> di) -> m1 b i = m b i) -> gevalB sz m1 (cellf q) = Some (val q)) ->
+  exists m', bodyB sz m (map (fun q => SAssign dst di (GOr (GLoad dst di) (cellf q))) rest) = Some m' /\
+    m' dst di = Some (acc || existsb val rest) /\
+    (forall b i, (b <> dst \/ i <> di) -> m' b i = m b i).
+Proof.
+  intros sz dst di cellf val rest. induction rest as [|q rest IH]; intros m acc Hd0 Hdi Hacc Hcell.
+  - exists m. split; [reflexivity|]. split; [rewrite orb_false_r; exact Hacc|reflexivity].
+  - cbn [map exec_body exec_stmt].
+    assert (dst =? 0 = false) as -> by (apply Nat.eqb_neq; exact Hd0).
+    assert (Hlt : di <? size_of sz dst = true) by (apply Nat.ltb_lt; exact Hdi). rewrite Hlt. cbn [orb negb geval].
+    rewrite Hlt, Hacc. rewrite (Hcell q m (or_introl eq_refl) (fun b i _ => eq_refl)). cbn [bin].
+    destruct (IH (upd m dst di (acc || val q)) (acc || val q) Hd0 Hdi) as [m' [He [Hv Ho]]].
+    + unfold upd. rewrite !Nat.eqb_refl. reflexivity.
+    + intros q' m1 Hin Hag. apply Hcell; [right; exact Hin|]. intros b i Hc. rewrite Hag by exact Hc.
+      unfold upd. destruct (Nat.eqb_spec b dst) as [->|]; [|reflexivity].
+      destruct (Nat.eqb_spec i di) as [->|]; [|reflexivity]. destruct Hc; congruence.
+    + exists m'. split; [exact He|]. split.
+      * rewrite Hv. cbn [existsb]. rewrite orb_assoc. reflexivity.
+      * intros b i Hc. rewrite Ho by exact Hc. unfold upd. destruct (Nat.eqb_spec b dst) as [->|]; [|reflexivity].
+        destruct (Nat.eqb_spec i di) as [->|]; [|reflexivity]. destruct Hc; congruence.
+Qed.
+
+Lemma pool_cell_correct : forall sz prev dst ps c oi x (m : memB),
+  pool_window ps (unravel (pl_out_dims ps) oi) <> [] -> c < pl_C ps ->
+  dst <> 0 -> prev <> dst ->
+  holds m prev x -> length x = pl_C ps * prod (pl_dims ps) -> length x <= size_of sz prev ->
+  c * prod (pl_out_dims ps) + oi < size_of sz dst ->
+  exists m', bodyB sz m (gen_pool_cell prev dst ps c oi) = Some m' /\
+    m' dst (c * prod (pl_out_dims ps) + oi) = Some (pool_cell ps x c (unravel (pl_out_dims ps) oi)) /\
+    (forall b i, (b <> dst \/ i <> c * prod (pl_out_dims ps) + oi) -> m' b i = m b i).
+Proof.
+  intros sz prev dst ps c oi x m Hne Hc Hd0 Hpd Hh Hlen Hsz Hdi.
+  set (di := c * prod (pl_out_dims ps) + oi) in *. set (o := unravel (pl_out_dims ps) oi) in *.
+  set (cellf := fun q => GLoad prev (flat_index (pl_dims ps) (map (fun v => v - pl_pad ps) q) c)).
+  set (val := fun q => nth (flat_index (pl_dims ps) (map (fun v => v - pl_pad ps) q) c) x false).
+  assert (Hpc : pool_cell ps x c o = existsb val (pool_window ps o)).
+  { unfold pool_cell, pool_window, read_padded.
+    exact (existsb_filter_map nat (list nat)
+             (fun t => map (fun '(oo, kk) => oo * pl_stride ps + kk)
+                           (combine o (unravel (map (fun _ => pl_kernel ps) (pl_dims ps)) t)))
+             (in_image (pl_dims ps) (pl_pad ps)) val _). }
+  assert (Hcell : forall q (m1 : memB), In q (pool_window ps o) -> holds m1 prev x -> gevalB sz m1 (cellf q) = Some (val q)).
+  { intros q m1 Hin Hh1. unfold pool_window in Hin. apply filter_In in Hin. destruct Hin as [_ Him].
+    pose proof (flat_index_lt (pl_dims ps) _ c (in_image_coords (pl_dims ps) (pl_pad ps) _ Him)) as Hlt.
+    assert (Hix : flat_index (pl_dims ps) (map (fun v => v - pl_pad ps) q) c < length x) by (rewrite Hlen; nia).
+    unfold cellf, val. cbn [geval].
+    assert (flat_index (pl_dims ps) (map (fun v => v - pl_pad ps) q) c <? size_of sz prev = true) as ->
+      by (apply Nat.ltb_lt; lia).
+    apply Hh1. exact Hix. }
+  assert (Hg : gen_pool_cell prev dst ps c oi =
+               match pool_window ps o with
+               | [] => []
+               | q0 :: rest => SAssign dst di (cellf q0) :: map (fun q => SAssign dst di (GOr (GLoad dst di) (cellf q))) rest
+               end) by reflexivity.
+  rewrite Hg, Hpc.
+  destruct (pool_window ps o) as [|q0 rest] eqn:Ew; [congruence|].
+  cbn [exec_body exec_stmt].
+  assert (dst =? 0 = false) as -> by (apply Nat.eqb_neq; exact Hd0).
+  assert (di <? size_of sz dst = true) as -> by (apply Nat.ltb_lt; exact Hdi). cbn [orb negb].
+  rewrite (Hcell q0 m (or_introl eq_refl) Hh).
+  destruct (or_chain sz dst di cellf val rest (upd m dst di (val q0)) (val q0) Hd0 Hdi) as [m' [He [Hv Ho]]].
+  - unfold upd. rewrite !Nat.eqb_refl. reflexivity.
+  - intros q m1 Hin Hag. apply Hcell; [right; exact Hin|].
+    intros i Hi. rewrite Hag by (left; exact Hpd). unfold upd.
+    assert (prev =? dst = false) as -> by (apply Nat.eqb_neq; exact Hpd). cbn [andb]. apply Hh. exact Hi.
+  - exists m'. split; [exact He|]. split; [rewrite Hv; reflexivity|].
+    intros b i Hc'. rewrite Ho by exact Hc'. unfold upd. destruct (Nat.eqb_spec b dst) as [->|]; [|reflexivity].
+    destruct (Nat.eqb_spec i di) as [->|]; [|reflexivity]. destruct Hc'; congruence.
+Qed.
+
+Lemma flat_map_single : forall (A B : Type) (g : A -> B) l, flat_map (fun p => [g p]) l = map g l.
+Proof. intros A B g l. induction l as [|a r IH]; [reflexivity|]. cbn. now rewrite IH. Qed.
+
+Lemma grid_map : forall (B : Type) (f : nat -> nat -> B) P K,
+  flat_map (fun k => map (f k) (seq 0 P)) (seq 0 K) = map (fun q => f (q / P) (q mod P)) (seq 0 (K * P)).
+Proof.
+  intros B f P K. rewrite <- flat_map_single. rewrite <- (flat_map_grid B (fun k p => [f k p]) P K).
+  apply flat_map_ext. intros k. symmetry. apply flat_map_single.
+Qed.
+
+Lemma holds_map_seq : forall (m : memB) b (h : nat -> bool) n,
+  (forall q, q < n -> m b q = Some (h q)) -> holds m b (map h (seq 0 n)).
+Proof.
+  intros m b h n H i Hi. rewrite map_length, seq_length in Hi. rewrite nth_map_seq by exact Hi. apply H. exact Hi.
+Qed.
+
+Lemma pool_layer_correct : forall sz loc prev dst ps x (m : memB),
+  wf_pool ps = true ->
+  dst <> 0 -> loc <> dst -> prev <> loc -> prev <> dst ->
+  holds m prev x -> length x = pl_C ps * prod (pl_dims ps) -> length x <= size_of sz prev ->
+  pl_C ps * prod (pl_out_dims ps) <= size_of sz dst ->
+  exists m', bodyB sz m (gen_pool prev dst ps) = Some m' /\
+    holds m' dst (pool_eval ps x) /\
+    (forall b i, b <> loc -> b <> dst -> m' b i = m b i).
+Proof.
+  intros sz loc prev dst ps x m Hwf Hd0 Hld Hpl Hpd Hh Hlen Hsz Hdst.
+  unfold gen_pool. rewrite flat_map_grid. set (P := prod (pl_out_dims ps)) in *.
+  destruct (cells_correct sz
+              (fun q => gen_pool_cell prev dst ps (q / P) (q mod P))
+              (fun q => pool_cell ps x (q / P) (unravel (pl_out_dims ps) (q mod P)))
+              loc dst (pl_C ps * P) m Hld) as [m' [He [Hv Ho]]].
+  { intros q m1 Hq Hag. destruct (divmod_grid q (pl_C ps) P Hq) as [Hk [Hp Hqe]].
+    destruct (pool_cell_correct sz prev dst ps (q / P) (q mod P) x m1) as [m2 [He2 [Hv2 Ho2]]]; try assumption.
+    - unfold wf_pool in Hwf. rewrite forallb_forall in Hwf. specialize (Hwf (q mod P) ltac:(apply in_seq; fold P; lia)).
+      intros E. rewrite E in Hwf. discriminate.
+    - apply holds_agree with (m := m); [exact Hh|]. intros i. apply Hag; assumption.
+    - fold P. rewrite Hqe. lia.
+    - fold P in Hv2, Ho2. rewrite Hqe in Hv2, Ho2. exists m2. split; [exact He2|]. split; [exact Hv2|].
+      intros b i _ Hc. apply Ho2. exact Hc. }
+  exists m'. split; [exact He|]. split.
+  - unfold pool_eval. fold P.
+    rewrite (grid_map bool (fun c p => pool_cell ps x c (unravel (pl_out_dims ps) p)) P (pl_C ps)).
+    apply holds_map_seq. exact Hv.
+  - intros b i Hb Hb'. apply Ho; [exact Hb|left; exact Hb'].
+Qed.
+
+(* ---------- the spatial stack *)
+Lemma pool_eval_length : forall ps x, length (pool_eval ps x) = pl_C ps * prod (pl_out_dims ps).
+Proof.
+  intros ps x. unfold pool_eval.
+  rewrite (grid_map bool (fun c p => pool_cell ps x c (unravel (pl_out_dims ps) p))). now rewrite map_length, seq_length.
+Qed.
+
+Lemma eval_layer_length : forall l x, layer_in_ok l (length x) = true -> length (eval_layer l x) = layer_out_size l.
+Proof.
+  intros [cs|ps| |d] x H; cbn in H; try discriminate; cbn [eval_layer layer_out_size].
+  - apply conv_out_length.
+  - apply pool_eval_length.
+Qed.
+
+Definition result_buf (ls : list layer) (prev next : nat) : nat :=
+  match ls with [] => prev | _ => next + length ls - 1 end.
+
+Lemma spatial_correct : forall ls sz loc prev next base x (m : memB),
+  wf_spatial ls (length x) = true ->
+  1 <= next -> prev < next -> next + length ls <= loc ->
+  holds m prev x -> length x <= size_of sz prev ->
+  (forall j, j < length ls -> layer_out_size (nth j ls LFlatten) <= size_of sz (next + j)) ->
+  base + sum_list (map layer_locals ls) <= size_of sz loc ->
+  exists m', bodyB sz m (gen_spatial loc ls prev next base) = Some m' /\
+    holds m' (result_buf ls prev next) (eval_net ls x).
+Proof.
+  induction ls as [|l rest IH]; intros sz loc prev next base x m Hwf Hn1 Hpn Hnl Hh Hsz Hsizes Hloc.
+  - exists m. split; [reflexivity|exact Hh].
+  - cbn [wf_spatial] in Hwf. apply andb_prop in Hwf. destruct Hwf as [Hl Hrest].
+    cbn [length] in Hnl. cbn [map sum_list fold_right] in Hloc. fold (sum_list (map layer_locals rest)) in Hloc.
+    assert (Hs0 : layer_out_size l <= size_of sz next).
+    { specialize (Hsizes 0 ltac:(cbn; lia)). rewrite Nat.add_0_r in Hsizes. exact Hsizes. }
+    assert (Hstep : exists m1, bodyB sz m (match l with
+                                           | LConv cs => gen_conv loc prev next cs base
+                                           | LPool ps => gen_pool prev next ps
+                                           | _ => []
+                                           end) = Some m1 /\ holds m1 next (eval_layer l x)).
+    { destruct l as [cs|ps| |d]; cbn in Hl; try discriminate; apply andb_prop in Hl; destruct Hl as [Hw Hlen];
+        apply Nat.eqb_eq in Hlen; cbn [layer_out_size layer_locals] in *.
+      - destruct (conv_layer_correct sz loc prev next cs base x m Hw) as [m1 [He [Hv _]]]; try assumption; try lia.
+        exists m1. split; [exact He|exact Hv].
+      - destruct (pool_layer_correct sz loc prev next ps x m Hw) as [m1 [He [Hv _]]]; try assumption; try lia.
+        exists m1. split; [exact He|exact Hv]. }
+    destruct Hstep as [m1 [He1 Hh1]].
+    cbn [gen_spatial]. rewrite body_app, He1.
+    pose proof (eval_layer_length l x Hl) as Hlen1.
+    destruct (IH sz loc next (S next) (base + layer_locals l) (eval_layer l x) m1) as [m2 [He2 Hh2]]; try lia.
+    + rewrite Hlen1. exact Hrest.
+    + exact Hh1.
+    + intros j Hj. specialize (Hsizes (S j) ltac:(cbn; lia)). cbn [nth] in Hsizes.
+      replace (S next + j) with (next + S j) by lia. exact Hsizes.
+    + exists m2. split; [exact He2|]. cbn [eval_net fold_left]. fold (eval_net rest (eval_layer l x)).
+      unfold result_buf in *. destruct rest as [|l2 rest']; [cbn [length]; replace (next + 1 - 1) with next by lia; exact Hh2|].
+      cbn [length] in *. replace (next + S (S (length rest')) - 1) with (S next + S (length rest') - 1) by lia. exact Hh2.
+Qed.
